@@ -211,6 +211,13 @@ pub fn abort_to_violation(a: &Abort) -> Violation {
     }
 }
 
+/// Machine integers are not Z: an arithmetic-overflow panic of i64 / Ratio<i64> arithmetic (the
+/// harness builds with overflow checks on, as the repository's release profile does) is a
+/// limitation of the coefficient type, not a violation of a property about exact arithmetic.
+pub fn is_machine_overflow(v: &Violation) -> bool {
+    v.class == "panic" && (v.message.contains("with overflow") || v.message.contains("attempt to negate with overflow"))
+}
+
 /// What a check reports for one run.
 #[derive(Default, Debug, Clone)]
 pub struct RunReport {
@@ -401,16 +408,23 @@ pub fn minimise(check: &dyn Check, mut best: OneRun, class: &str, budget_runs: u
     let mut progress = true;
     while progress && spent < budget_runs {
         progress = false;
-        for cand in check.shrink_case(&best.case) {
-            if spent >= budget_runs {
-                break;
-            }
-            spent += 1;
-            let r = do_run(check, best.idx, cand, best.cfg.clone(), None);
-            if same(&r) {
-                best = r;
-                progress = true;
-                break;
+        'cands: for cand in check.shrink_case(&best.case) {
+            // a smaller workload changes the schedule the same seed generates: try a few seeds
+            for alt in 0..3u64 {
+                if spent >= budget_runs {
+                    break 'cands;
+                }
+                spent += 1;
+                let mut cfg = best.cfg.clone();
+                if alt > 0 {
+                    cfg.sched_seed = rt::mix(cfg.sched_seed, alt);
+                }
+                let r = do_run(check, best.idx, cand.clone(), cfg, None);
+                if same(&r) {
+                    best = r;
+                    progress = true;
+                    break 'cands;
+                }
             }
         }
     }
@@ -789,7 +803,7 @@ fn finish_batch(check: &dyn Check, o: &BatchOpts, mut agg: Agg, det_k: u64, t0: 
         let again = do_run(check, *idx, case.clone(), cfg.clone(), None);
         let minimised = if *per_run {
             if again.report.violation.as_ref().map(|x| &x.class) == Some(&v.class) {
-                minimise(check, again, &v.class, 400)
+                minimise(check, again, &v.class, 1500)
             } else {
                 eprintln!("HARNESS-ERROR property={} run={} violation did not reproduce from its own seed", check.id(), idx);
                 return 2;
